@@ -479,7 +479,7 @@ class Models(object):
                 r = tm.ite(tm.and_(g, c), tm.some(x), r)
             return r
         l, _ = ev.reify(f, 1, elem_of=it)
-        if it.op == "iter" and it.a[0].op in ("push", "ite"):
+        if it.op == "iter" and it.a[0].op in ("push", "ite", "extend"):
             return self.find_in(it.a[0], l)
         if it.op == "iter_mut":
             pl = place_of_ref(it.a[0])
@@ -505,6 +505,19 @@ class Models(object):
             return tm.ite(opt_is_some(inner), inner, tm.ite(c, tm.some(_let_fields(coll.a[1])), tm.NONE))
         if coll.op == "ite":
             return tm.ite(coll.a[0], self.find_in(coll.a[1], l), self.find_in(coll.a[2], l))
+        if coll.op == "extend" and isinstance(coll.a[1], T):
+            # extended by an explicit list of elements (a fixed array mapped to records): the same as pushing them in turn
+            src = coll.a[1]
+            items = None
+            if src.op == "eiter" and all(g is tm.TRUE for g, _x in self.eiter_items(src)):
+                items = [x for _g, x in self.eiter_items(src)]
+            elif src.op == "iter" and src.a[0].op == "seq":
+                items = list(src.a[0].a)
+            if items is not None:
+                cur = coll.a[0]
+                for x in items:
+                    cur = mk("push", cur, x)
+                return self.find_in(cur, l)
         if coll.op == "seq":
             r = tm.NONE
             for x in reversed(coll.a):
@@ -763,6 +776,7 @@ class Models(object):
         ev.nloop += 1
         uid = ev.nloop
         mut_place = None
+        zip_mut = False
         if itv.op == "iter_mut":
             mut_place = place_of_ref(itv.a[0])
             coll = ev.read(mut_place)
@@ -771,6 +785,12 @@ class Models(object):
             mut_place = place_of_ref(itv.a[0])
             coll = ev.read(mut_place)
             src = mk("map", mk("iter", coll), _LAM_SND)
+        elif itv.op == "zip" and itv.a[0].op == "iter_mut" and is_ref(itv.a[0].a[0]) and itv.a[1].op != "iter_mut":
+            # for (a, b) in xs.iter_mut().zip(ys): the elements of xs are rewritten in step with those of ys
+            mut_place = place_of_ref(itv.a[0].a[0])
+            coll = ev.read(mut_place)
+            src = mk("zip", mk("iter", coll), itv.a[1])
+            zip_mut = True
         else:
             src = itv
         elem_facts = _filters_of(src)
@@ -783,14 +803,16 @@ class Models(object):
             for c, st in state_for.items():
                 ev.store.cells[c] = st
             elem = tm.fresh("elem")
-            ecell = ev.new_cell(elem, "elem") if mut_place is not None else None
+            ecell = ev.new_cell(tm.tproj(elem, 0) if zip_mut else elem, "elem") if mut_place is not None else None
             n0 = len(ev.pc)
             ev.pc.append(mk("in_loop", uid))
             for lam in elem_facts:
                 ev.assume(tm.apply_lam(lam, [elem]))
             nret0 = [len(f.returns) for f in frames]
             try:
-                if ecell is not None:
+                if ecell is not None and zip_mut:
+                    ctx = body(tm.tup(Place(ecell).ref(), tm.tproj(elem, 1)), None)
+                elif ecell is not None:
                     ctx = body(Place(ecell).ref(), Place(ecell))
                 else:
                     ctx = body(elem, None)
@@ -903,7 +925,7 @@ class Models(object):
                     if conds and not any(tm.free_syms(g) & state_syms for g in conds) and not (tm.free_syms(rv) & state_syms) \
                             and all(g.op != "in_loop" or g.a[0] == uid for g in inner):
                         lamc = tm.lam([elem], tm.and_(*conds))
-                        if src.op == "iter" and src.a[0].op in ("push", "ite"):
+                        if src.op == "iter" and src.a[0].op in ("push", "ite", "extend"):
                             # same closed form as the model of Iterator::find (pushes and joins made explicit)
                             opt = self.find_in(src.a[0], lamc)
                             first, found = opt_val(opt), opt_is_some(opt)
@@ -917,6 +939,10 @@ class Models(object):
         ev.store.live = True
         for c in cells:
             ev.store.cells[c] = finals[c]
+        if zip_mut:
+            if info["elem_next"] is not None and info["elem_next"] is not tm.tproj(elem, 0):
+                ev.write(mut_place, self.collect_vec(mk("map", src, tm.lam([elem], info["elem_next"]))))
+            return tm.UNIT
         if mut_place is not None and info["elem_next"] is not None and info["elem_next"] is not elem:
             coll = ev.read(mut_place)
             l = tm.lam([elem], info["elem_next"])
